@@ -207,9 +207,13 @@ def run(chk):
                 extra[id(lab)].append("buddy: %s" % r.choice(tg)["id"])
         ns = T.nodes(t)
         picks = r.sample(ns, min(len(ns), 2 if quick else 4))
+        under = [(x, p) for x, p in ns if p is not None and T.kind(p["cls"]) == "layout" and not any(x is y for y, _ in picks)]
+        picks += r.sample(under, min(len(under), 3 if quick else len(under)))        # layout items interact with their siblings
         for node, parent in picks:
             general = [f for f in FAULTS if not f.startswith(SPECIFIC)]
-            for fault in [f for f in FAULTS if f.startswith(SPECIFIC)] + r.sample(general, 3 if quick else len(general)):
+            # an object whose attachments its parent layout consumes interacts with its siblings: the faults that can disturb them are always planted there
+            always = ["duplicate", "dup_attached", "unknown_type"] if parent is not None and T.kind(parent["cls"]) == "layout" else []
+            for fault in [f for f in FAULTS if f.startswith(SPECIFIC)] + always + r.sample([g for g in general if g not in always], 3 if quick else len(general) - len(always)):
                 p = plant(t, extra, node, parent, fault)
                 if p:
                     cases.append((len(cases), t, node["id"], fault.split(":")[0]) + p)
